@@ -1033,6 +1033,15 @@ class ExprMixin:
                 return self.conc_dict_lookup(obj, idx, node)
         if isinstance(base, VRef):
             return self.call_method(base, "__getitem__", [idx], {}, node, st)
+        if isinstance(base, VRec) and self.classes.get(base.cls, {}).get("dict_keys") and isinstance(idx, str):
+            # d["k"] on a dict with a fixed set of string keys, modelled as a record (class entry "dict_keys": True - the dict
+            # has exactly the record's field names as keys): the field for a key, KeyError otherwise (cf. d.get in call_method)
+            if idx in base.fields:
+                return base.fields[idx]
+            self.may_raise(True, "KeyError", node)
+            return None
+        if isinstance(base, VRec) and f"{base.cls}.__getitem__" in self.externals and getattr(self.externals[f"{base.cls}.__getitem__"], "pure", False):
+            return self.call_method(base, "__getitem__", [idx], {}, node, st)  # value object of a third-party class: its assumed contract
         raise Unsupported(f"subscript of {type(base).__name__} at line {node.lineno}")
 
     def conc_dict_lookup(self, obj, idx, node):
